@@ -1,5 +1,5 @@
 # replay of a bounded stand-in violation (C11): re-run native/c11_compilers.py
 import sys
-print("gaussian_merge n=5 gates=[('Sgate', (3,)), ('S2gate', (0, 1)), ('Dgate', (3,)), ('Vgate', (2,)), ('BSgate', (4, 3)), ('Rgate', (0,)), ('CKgate', (2, 1)), ('MZgate', (2, 3)), ('Rgate', (4,)), ('Dgate', (2,)), ('Kgate', (1,)), ('MZgate', (2, 0)), ('MZgate', (1, 2))]: with the opaque gates interpreted as fixed unitaries the compiled program [('Vgate', [2]), ('GaussianTransform', [0, 1, 3, 4]), ('CKgate', [2, 1]), ('Dgate', [4]), ('Kgate', [1]), ('GaussianTransform', [0, 1, 2, 3]), ('Dgate', [0]), ('Dgate', [1]), ('Dgate', [2]), ('Dgate', [3]), ('MeasureFock', [0, 1, 2, 3, 4])] computes something else (max difference 0.155)")
+print("passive n=4 modes=[3, 2] gates=[('BSgate', (3, 2)), ('Rgate', (3,)), ('Rgate', (3,)), ('BSgate', (3, 2)), ('Interferometer', (3, 2)), ('MZgate', (3, 2)), ('MZgate', (3, 2)), ('MZgate', (3, 2)), ('Rgate', (3,)), ('PassiveChannel', (3,)), ('BSgate', (3, 2)), ('BSgate', (3, 2))]: compiled program leaves a different Gaussian state (max difference 0.574)")
 print('REPLAY-VIOLATION')
 sys.exit(1)
